@@ -366,6 +366,96 @@ pub fn gen_case(t: &mut Tape) -> Case {
     }
 }
 
+/// CLI subcheck: `rg -n -b -A a -B b [...] x f` — the printed records must be
+/// exactly the LineModel's events (kind, line number, byte offset, bytes) with
+/// `--` exactly where the model has a break.
+pub fn check_cli(case: &Case) -> Verdict {
+    use crate::cli::{Rg, TempDir};
+    let term = case.cfg.term;
+    let input = input_of(&case.lines, case.final_term, term);
+    let dir = TempDir::fast("c03");
+    dir.write("f", &input);
+    let mut rg = Rg::new(&dir.path).args(["--no-config", "--color", "never", "-a", "-j1", "-n", "-b", "--no-heading", "--no-filename"]);
+    match case.strat {
+        Strat::Slice | Strat::PathMmap => rg = rg.arg("--mmap"),
+        _ => rg = rg.arg("--no-mmap"),
+    }
+    if case.cfg.invert {
+        rg = rg.arg("-v");
+    }
+    if case.cfg.passthru {
+        rg = rg.arg("--passthru");
+    } else {
+        rg = rg.arg(format!("-A{}", case.cfg.after)).arg(format!("-B{}", case.cfg.before));
+    }
+    if case.cfg.stop_on_nonmatch {
+        rg = rg.arg("--stop-on-nonmatch");
+    }
+    match term {
+        Term::Crlf => rg = rg.arg("--crlf"),
+        Term::Nul => rg = rg.arg("--null-data"),
+        Term::Lf => {}
+    }
+    let stdin = matches!(case.strat, Strat::Reader { .. });
+    rg = rg.arg("-e").arg("x");
+    rg = if stdin { rg.arg("-").stdin(input.clone()) } else { rg.arg("f") };
+    let cmd = rg.cmdline();
+    let out = rg.run();
+    if out.timed_out {
+        return Verdict::Reject("timeout (inconclusive)");
+    }
+    let lines = model::split_lines(&input, term.byte());
+    let success: Vec<bool> = lines.iter().map(|l| input[l.start..l.end].contains(&b'x') != case.cfg.invert).collect();
+    let cfg = SCfg { line_number: true, ..case.cfg.clone() };
+    let exp = model::expected(&input, &cfg, &lines, &success, false);
+    // render the expected stdout
+    let tb = term.byte();
+    let mut want: Vec<u8> = vec![];
+    for e in &exp.events {
+        match e {
+            Event::Break => {
+                want.extend_from_slice(b"--");
+                want.extend_from_slice(term.bytes());
+            }
+            Event::Match { line, offset, bytes } | Event::Context { line, offset, bytes, .. } => {
+                let sep = if matches!(e, Event::Match { .. }) { b':' } else { b'-' };
+                want.extend_from_slice(line.unwrap().to_string().as_bytes());
+                want.push(sep);
+                want.extend_from_slice(offset.to_string().as_bytes());
+                want.push(sep);
+                want.extend_from_slice(bytes);
+                if bytes.last() != Some(&tb) {
+                    want.extend_from_slice(term.bytes());
+                }
+            }
+            _ => {}
+        }
+    }
+    if out.stdout != want {
+        return Verdict::Fail(Fail::new(format!(
+            "rg's stdout differs from the grep model\n cmd: {cmd}{}\n input={:?}\n expected stdout: {:?}\n observed stdout: {:?}\n stderr: {:?} status: {:?}",
+            if stdin { " < f" } else { "" },
+            Bs(input.clone()),
+            Bs(want),
+            Bs(out.stdout.clone()),
+            Bs(out.stderr.clone()),
+            out.status
+        )));
+    }
+    let any = exp.events.iter().any(|e| matches!(e, Event::Match { .. }));
+    if out.status != Some(if any { 0 } else { 1 }) {
+        return Verdict::Fail(Fail::new(format!("exit status {:?} with {} matching lines\n cmd: {cmd}", out.status, if any { "some" } else { "no" })));
+    }
+    let mut info = Info::new(exp.events.iter().any(|e| matches!(e, Event::Break)) && any);
+    info.class_if(case.cfg.invert, "invert");
+    info.class_if(case.cfg.passthru, "passthru");
+    info.class_if(case.cfg.stop_on_nonmatch, "stop_on_nonmatch");
+    info.class_if(term == Term::Crlf, "crlf");
+    info.class_if(term == Term::Nul, "null_data");
+    info.class_if(stdin, "stdin");
+    Verdict::Pass(info)
+}
+
 pub fn run(pc: &PropCtx) {
     pc.rule(
         "exhaustive: every input of up to N lines over a small line alphabet (x = matching) x final terminator x full flag product x 4 matcher kinds x 5 strategies, compared with the LineModel; random: up to 200 lines, contexts up to 12, random fragmentation/capacity/file strategies. Non-trivial = (A+B>0 and two reported lines at distance 1<d<=A+B+2, i.e. context windows overlap, touch or leave a gap of one) or (passthru with both reported and unreported lines); enumerated cases are distinct by construction, random ones by hash",
@@ -383,13 +473,30 @@ pub fn run(pc: &PropCtx) {
     pc.bound("enum_context_max", json!(3));
     let cases = pc.tier.pick(6_000, 120_000);
     pc.run_tape("random", cases, (64, 1200), gen_case, check);
+    // the same model against the real binary's stdout (flag mapping included)
+    pc.set_shrink_iters(300);
+    let cli_cases = pc.tier.pick(3_000, 40_000);
+    pc.run_tape(
+        "cli",
+        cli_cases,
+        (64, 1200),
+        |t| {
+            let mut c = gen_case(t);
+            c.lines.truncate(40);
+            c
+        },
+        check_cli,
+    );
     if pc.tier == Tier::Thorough {
         pc.run_fuzz("C03:random", 500_000, 5000, &|v| replay(pc, "random", v).unwrap_or(Verdict::Reject("unreadable")));
     }
 }
 
 pub fn replay(pc: &PropCtx, sub: &str, case: &serde_json::Value) -> Result<Verdict, String> {
-    let _ = (pc, sub);
+    let _ = pc;
     let c: Case = serde_json::from_value(case.clone()).map_err(|e| e.to_string())?;
+    if sub == "cli" {
+        return Ok(check_cli(&c));
+    }
     Ok(check(&c))
 }
